@@ -212,8 +212,12 @@ def run(chk):
     chk.assume("tables are well formed (C02); cross-word path decided for the listed n (unrolled)")
     for kind in ("dyn", "static"):
         K = env.kinds[kind]
-        for n in range(1, nmax + 1):
-            for v in range(n):
+        plan = [(n, v) for n in range(1, nmax + 1) for v in range(n)]
+        if chk.tier == "quick":
+            # larger strides of the cross-word path (one block of word pairs is no longer the whole table)
+            plan += [(9, 6), (9, 8), (10, 6), (10, 8), (10, 9)]
+        for n, v in plan:
+            if True:
                 # ---------------- top_decomposition
                 key = "%s::top_decomposition n=%d v=%d" % (K.adt, n, v)
                 b = K.method("top_decomposition")
